@@ -301,6 +301,9 @@ def genOps3 : List (String × R String) := [
         let bb ← Gen.script_to_bytes Gen.OP_CODES b
         -- the hashes the address objects hold must be the ones the helpers commit to
         let h1 ← Gen.address_script_to_hash160 Crypto.sha256 Gen.OP_CODES py
+        -- … and what P2shAddress(script=…) stores (the translated constructor)
+        let h0 ← Gen.address_init_script Crypto.sha256 Gen.OP_CODES py
+        if h0 != h1 then throw PyErr.other
         let h2 ← Gen.segwit_script_to_hash Crypto.sha256 Gen.OP_CODES py
         if dat a != hex h1 || dat b != hex h2 then throw PyErr.other
         pure s!"{dat a} {dat b} {hex ab} {hex bb}"))),
